@@ -15,6 +15,11 @@ ghost('held_store', 'bool', 'the store lock is held by this thread of control')
 ghost('held_local_id', 'bool', 'the local-id lock is held by this thread of control')
 ghost('di', 'intmap', 'per stream (local id): number of packets IOManager.read has delivered to its reader')
 ghost('lost', 'intmap', 'per stream: number of data-bearing (WRTE) packets consumed and discarded by IOManager.read')
+ghost('sgot', 'intmap', 'per stream: number of sync bytes (WRTE payload bytes) received so far')
+ghost('spos', 'intmap', 'per stream: number of sync bytes consumed by the FileSync record reader')
+ghost('fi', 'intmap', 'per stream: number of FileSync records _filesync_read has returned')
+ghost('fout', 'bytes', 'bytes written to the local destination stream (pull)')
+ghost('cb_bytes', 'int', 'sum of the byte counts reported to the progress callback')
 ghost('session', 'int', 'transport sessions started (incremented by transport.connect)')
 ghost('topen', 'bool', 'the transport is connected')
 ghost('files_opened', 'int', 'local files opened')
